@@ -1,82 +1,85 @@
 import PBProofs.Lemmas.Config
 namespace PB.Config
 
-theorem check_of_valid (o : Opt) (ho : RegOK o) (v : Val) (hv : v.WF) (c : Cache) (h : Valid o (migrate o.mg v) c) :
-    check o v = .ok c :=
-  (validate_ok_iff_valid o ho _ (migrate_WF o.mg v hv) c).mpr h
+theorem get_eq_of (st st' : St) (h1 : st'.opts = st.opts) (h2 : st'.gate = st.gate) (k : Key) (fb : GVal) :
+    get st' k fb = get st k fb := by
+  unfold get getCache St.find
+  rw [h1, h2]
 
-theorem wf_writeUser (st : St) (h : WF st) (k : Key) (v : Val) (hv : v.WF) : WF (writeUser st k v).1 := by
-  rcases writeUser_cases st h k v hv with ⟨_, e⟩ | ⟨o, hf, _, e⟩ | ⟨o, c, hf, _, hval, e⟩ | ⟨o, _, _, _, _, e⟩
-  · rw [e]; exact h
-  · rw [e]
-    have hm := find?_some_mem hf
-    exact wf_putOpt st h o _ (by rw [show ({ o with user := none } : Opt).key = k from hm.2]; exact hf)
-      ⟨rfl, rfl, rfl, rfl, rfl, rfl, rfl, rfl⟩ (by intro c hc; cases hc)
-  · rw [e]
-    have hm := find?_some_mem hf
-    refine wf_putOpt st h o _ (by rw [show ({ o with user := some c } : Opt).key = k from hm.2]; exact hf)
-      ⟨rfl, rfl, rfl, rfl, rfl, rfl, rfl, rfl⟩ ?_
-    intro c' hc'
-    have : c = c' := by simpa using hc'
-    subst this
-    have hck := check_of_valid o (h.reg o hm.1) v hv c hval
-    exact (check_static { o with user := some c } o ⟨rfl, rfl, rfl, rfl, rfl, rfl, rfl, rfl⟩ _).trans
-      (check_json_idem o (h.reg o hm.1) v hv c hck)
-  · rw [e]; exact h
-
-theorem wf_writeDflt (st : St) (h : WF st) (k : Key) (v : Val) (hv : v.WF) : WF (writeDflt st k v).1 := by
-  rcases writeDflt_cases st h k v hv with ⟨_, e⟩ | ⟨o, hf, _, e⟩ | ⟨o, c, hf, _, hval, e⟩ | ⟨o, _, _, _, _, e⟩
-  · rw [e]; exact h
-  · rw [e]
-    have hm := find?_some_mem hf
-    refine wf_putOpt st h o _ (by rw [show ({ o with dflt := none } : Opt).key = k from hm.2]; exact hf)
-      ⟨rfl, rfl, rfl, rfl, rfl, rfl, rfl, rfl⟩ ?_
-    intro c' hc'
-    exact (check_static { o with dflt := none } o ⟨rfl, rfl, rfl, rfl, rfl, rfl, rfl, rfl⟩ _).trans (h.uvalid o hm.1 c' hc')
-  · rw [e]
-    have hm := find?_some_mem hf
-    refine wf_putOpt st h o _ (by rw [show ({ o with dflt := some c } : Opt).key = k from hm.2]; exact hf)
-      ⟨rfl, rfl, rfl, rfl, rfl, rfl, rfl, rfl⟩ ?_
-    intro c' hc'
-    exact (check_static { o with dflt := some c } o ⟨rfl, rfl, rfl, rfl, rfl, rfl, rfl, rfl⟩ _).trans (h.uvalid o hm.1 c' hc')
-  · rw [e]; exact h
-
-theorem wf_setUser (st : St) (h : WF st) (k : Key) (v : Val) (hv : v.WF) : WF (setUser st k v).1 := by
-  have hw := wf_writeUser st h k v hv
+theorem setUser_gen (st : St) (h : WF st) (k : Key) (v : Val) (hv : v.WF) :
+    (setUser st k v).1.gen = st.gen + 1 ∨ (setUser st k v).1 = st := by
   unfold setUser
-  split
-  · rename_i st' heq; rw [heq] at hw; exact wf_save _ (wf_signal _ hw)
-  · rename_i st' e heq; rw [heq] at hw; exact hw
+  rcases writeUser_cases st h k v hv with ⟨_, e⟩ | ⟨o, _, _, e⟩ | ⟨o, c, _, _, _, e⟩ | ⟨o, _, _, _, _, e⟩
+  · rw [e]; exact Or.inr rfl
+  · rw [e]; left; simp only []; rw [save_gen]; simp [signal, (putOpt_misc _ _).1]
+  · rw [e]; left; simp only []; rw [save_gen]; simp [signal, (putOpt_misc _ _).1]
+  · rw [e]; exact Or.inr rfl
 
-theorem wf_setDflt (st : St) (h : WF st) (k : Key) (v : Val) (hv : v.WF) : WF (setDflt st k v).1 := by
-  have hw := wf_writeDflt st h k v hv
+theorem setDflt_gen (st : St) (h : WF st) (k : Key) (v : Val) (hv : v.WF) :
+    (setDflt st k v).1.gen = st.gen + 1 ∨ (setDflt st k v).1 = st := by
   unfold setDflt
-  split
-  · rename_i st' heq; rw [heq] at hw; exact wf_signal _ hw
-  · rename_i st' e heq; rw [heq] at hw; exact hw
+  rcases writeDflt_cases st h k v hv with ⟨_, e⟩ | ⟨o, _, _, e⟩ | ⟨o, c, _, _, _, e⟩ | ⟨o, _, _, _, _, e⟩
+  · rw [e]; exact Or.inr rfl
+  · rw [e]; left; simp [signal, (putOpt_misc _ _).1]
+  · rw [e]; left; simp [signal, (putOpt_misc _ _).1]
+  · rw [e]; exact Or.inr rfl
 
-theorem wf_replaceUser (st : St) (h : WF st) (m : List (Key × Val)) (hm : ∀ e ∈ m, e.2.WF) :
-    WF (replaceUser st m).1 := by
-  unfold replaceUser
-  refine wf_signal _ (wf_mapUser st h (replOne m) ?_)
-  intro o ho c hc
-  obtain ⟨v, hl, hck⟩ := replOne_some hc
-  exact check_json_idem o (h.reg o ho) v (hm _ (lookup_mem hl)) c hck
+theorem updateGate_gen (s : St) : (updateGate s).gen = s.gen := by unfold updateGate; split <;> rfl
 
-theorem wf_replaceDflt (st : St) (h : WF st) (m : List (Key × Val)) : WF (replaceDflt st m).1 := by
-  unfold replaceDflt
-  exact wf_signal _ (wf_mapDflt st h (replOne m))
+theorem replaceUser_gen (st : St) (m : List (Key × Val)) : (replaceUser st m).1.gen = st.gen + 1 := by
+  simp [replaceUser, signal, updateGate_gen]
 
-theorem wf_load (st : St) (h : WF st) (b : Bool) (hf : ∀ t, st.file = .tree t → ∀ e ∈ t, e.2.WF) : WF (load st b).1 := by
-  unfold load
-  split
-  · exact h
-  · split
-    · exact h
-    · exact h
-    · rename_i t heq
-      have := wf_replaceUser st h (flatten t) (hf t heq)
-      simp only []
-      split <;> exact this
+theorem replaceDflt_gen (st : St) (m : List (Key × Val)) : (replaceDflt st m).1.gen = st.gen + 1 := by
+  simp [replaceDflt, signal, updateGate_gen]
+
+/-- Every call either hands out a new validity flag or leaves everything a getter reads untouched. -/
+theorem apply_gen_or_same (st : St) (h : WF st) (op : Op) (hop : op.WF) :
+    (apply st op).gen = st.gen + 1 ∨
+    ((apply st op).gen = st.gen ∧ (apply st op).opts = st.opts ∧ (apply st op).gate = st.gate) := by
+  cases op with
+  | set k v =>
+    rcases setUser_gen st h k v hop with e | e
+    · exact Or.inl e
+    · right; simp only [apply]; rw [e]; exact ⟨rfl, rfl, rfl⟩
+  | setd k v =>
+    rcases setDflt_gen st h k v hop with e | e
+    · exact Or.inl e
+    · right; simp only [apply]; rw [e]; exact ⟨rfl, rfl, rfl⟩
+  | rep m => exact Or.inl (replaceUser_gen st m)
+  | repd m => exact Or.inl (replaceDflt_gen st m)
+  | save => right; exact ⟨save_gen st, save_opts st, save_gate st⟩
+  | load b =>
+    simp only [apply]
+    unfold load
+    split
+    · right; exact ⟨rfl, rfl, rfl⟩
+    · split
+      · right; exact ⟨rfl, rfl, rfl⟩
+      · right; exact ⟨rfl, rfl, rfl⟩
+      · left
+        rename_i t _
+        have := replaceUser_gen st (flatten t)
+        simp only []
+        split <;> exact this
+  | wfile f => right; exact ⟨rfl, rfl, rfl⟩
+
+theorem cinv_apply (st : St) (h : WF st) (op : Op) (hop : op.WF) (cl : Closure) (hc : CInv st cl) :
+    CInv (apply st op) cl := by
+  rcases apply_gen_or_same st h op hop with e | ⟨e1, e2, e3⟩
+  · refine ⟨by rw [e]; exact Nat.le_succ_of_le hc.1, ?_⟩
+    intro hf; rw [e] at hf; have := hc.1; omega
+  · refine ⟨by rw [e1]; exact hc.1, ?_⟩
+    intro hf; rw [e1] at hf
+    rw [get_eq_of st _ e2 e3]; exact hc.2 hf
+
+theorem cinv_mk (st : St) (k : Key) (fb : GVal) : CInv st (mkClosure st k fb) := ⟨Nat.le_refl _, fun _ => rfl⟩
+
+theorem call_current (st : St) (cl : Closure) (hc : CInv st cl) :
+    (cl.call st).2 = get st cl.key cl.fb ∧ CInv st (cl.call st).1 ∧
+      (cl.call st).1.key = cl.key ∧ (cl.call st).1.fb = cl.fb := by
+  unfold Closure.call
+  by_cases hf : cl.flag = st.gen
+  · rw [if_pos hf]; exact ⟨hc.2 hf, hc, rfl, rfl⟩
+  · rw [if_neg hf]; exact ⟨rfl, ⟨Nat.le_refl _, fun _ => rfl⟩, rfl, rfl⟩
 
 end PB.Config
